@@ -21,6 +21,15 @@ public:
     HTTP_PROTOTYPE(EchoHandler)
     void onRequest(const Http::Request& req, Http::ResponseWriter w) override
     {
+        if (req.resource() == "/stream")
+        {
+            // a streamed answer flushed from inside the handler: the flush drains the connection's write queue at once
+            auto s = w.stream(Http::Code::Ok);
+            s << "streamed";
+            s.flush();
+            s.ends();
+            return;
+        }
         w.send(Http::Code::Ok, "echo:" + req.resource());
     }
 };
@@ -32,7 +41,9 @@ struct Kind
     const char* name;
 };
 static const Kind kKinds[] = { { false, 1, "raw1" }, { false, 2, "raw2" }, { false, 5, "raw5" }, { false, 4097, "raw4097" },
-                               { true, 1, "file1" }, { true, 5, "file5" }, { true, 70000, "file70000" } };
+                               { true, 1, "file1" }, { true, 5, "file5" }, { true, 70000, "file70000" },
+                               // empty buffers: the socket call for them returns 0, which is success
+                               { false, 0, "raw0" }, { true, 0, "file0" } };
 static std::string gFileDir;
 static bool gReportBusyWait = false; // the busy-wait verdict belongs to C07
 static std::string content(int kind, int slot)
@@ -73,7 +84,7 @@ static std::string exec_desc(const Exec& e)
             d += "call" + std::to_string(i) + ":" + kAnsNames[e.plan[i]] + " ";
     d += "]";
     if (e.clientInputAtBlock)
-        d += " +client-input-while-blocked";
+        d += e.clientInputAtBlock == 2 ? " +client-request-while-blocked(handler streams and flushes)" : " +client-input-while-blocked";
     if (e.foreign)
     {
         d += " issued-from-another-thread=[";
@@ -118,6 +129,9 @@ static void run_exec(const Exec& e, vr::Ctx& ctx, uint64_t& steps)
     }
     size_t issued = 0;
     bool clientInputSent = false;
+    // the streaming handler flushes twice (flush(), ends()): each flush is one more write attempt on the blocked
+    // socket within the batch, which is not a busy-wait
+    W.extra_attempts_allowed = e.clientInputAtBlock == 2 ? 2 : 0;
     for (int i = 0; i < 8; ++i)
     {
         switch (e.plan[i])
@@ -190,7 +204,8 @@ static void run_exec(const Exec& e, vr::Ctx& ctx, uint64_t& steps)
         {
             if (e.clientInputAtBlock && !clientInputSent)
             {
-                lp::client_send(cfd, "x");
+                // 1: a byte of a request; 2: a whole request whose handler streams its answer and flushes it
+                lp::client_send(cfd, e.clientInputAtBlock == 2 ? "GET /stream HTTP/1.1\r\nHost: h\r\n\r\n" : "x");
                 clientInputSent = true;
             }
             if (W.release_in[sfd] <= 0)
@@ -214,6 +229,16 @@ static void run_exec(const Exec& e, vr::Ctx& ctx, uint64_t& steps)
     auto viol     = [&](const std::string& sig, const std::string& extra) { ctx.violation(sig, d + extra + "}"); };
     if (W.livelock && gReportBusyWait)
         viol("c07:busy-wait:write-retried-without-returning-to-the-poller", "\"consecutive_would_block\":" + std::to_string(W.max_consecutive_block));
+    if (e.clientInputAtBlock == 2 && clientInputSent)
+    {
+        // the handler's own (contiguous) response is taken out of the stream before the comparison
+        size_t at  = received.find("HTTP/1.1 200");
+        size_t end = at == std::string::npos ? at : received.find("0\r\n\r\n", at);
+        if (end == std::string::npos)
+            viol("c06:handler-response-missing-or-incomplete", "\"received\":" + std::to_string(received.size()));
+        else
+            received.erase(at, end + 5 - at);
+    }
     if (received != expected)
     {
         std::string kind = received.size() < expected.size() && expected.compare(0, received.size(), received) == 0 ? "bytes-missing" : received.size() > expected.size() ? "extra-bytes" : "bytes-differ";
@@ -324,8 +349,10 @@ static void case_c06(uint64_t idx, vr::Ctx& ctx)
         for (unsigned fm = 0; fm < (deviations <= 1 && !gDeep ? 1u << e.kinds.size() : 1u); ++fm)
         {
             e.foreign = fm;
-            for (int ci = 0; ci <= (hasBlock ? 1 : 0); ++ci)
+            for (int ci = 0; ci <= (hasBlock ? 2 : 0); ++ci)
             {
+                if (ci == 2 && (fm != 0 || deviations > 1))
+                    continue; // (the streaming-handler variant: loop-thread writes, plans with one deviation)
                 e.clientInputAtBlock = ci;
                 ctx.note("c06 " + exec_desc(e));
                 run_exec(e, ctx, steps);
@@ -351,21 +378,34 @@ struct C07
     int pending, blockAt, releaseAfter, arriveAt, order, split;
     int closer; // a third connection of the same worker goes away in the very batch in which A becomes writable again
     int fileAt = -1; // which of A's pending writes is a file (sendfile) instead of a raw buffer; -1: none
+    int stale  = 0;  // a write for a connection that is already gone sits in the write queue ahead of B's response
 };
 static std::vector<C07> gC07;
 
 static void case_c07(uint64_t idx, vr::Ctx& ctx)
 {
     const C07 c = gC07[idx];
-    std::string desc = std::string(c.closer ? "[third connection closes when A is released] " : "") + (c.fileAt >= 0 ? "[A's write " + std::to_string(c.fileAt) + " is a file] " : std::string()) + "A: " + std::to_string(c.pending) + " pending writes, would-block at write call " + std::to_string(c.blockAt) + " released after " + std::to_string(c.releaseAfter) + " steps; B: request at step " + std::to_string(c.arriveAt) + (c.split ? " (in two reads)" : "") + "; event order " + (c.order ? "B first" : "A first");
+    std::string desc = std::string(c.stale ? "[a write for a vanished connection is queued ahead of B's response] " : "") + std::string(c.closer ? "[third connection closes when A is released] " : "") + (c.fileAt >= 0 ? "[A's write " + std::to_string(c.fileAt) + " is a file] " : std::string()) + "A: " + std::to_string(c.pending) + " pending writes, would-block at write call " + std::to_string(c.blockAt) + " released after " + std::to_string(c.releaseAfter) + " steps; B: request at step " + std::to_string(c.arriveAt) + (c.split ? " (in two reads)" : "") + "; event order " + (c.order ? "B first" : "A first");
     ctx.note("c07 " + desc);
     auto handler = std::make_shared<EchoHandler>();
     lp::Loop loop(handler);
     std::shared_ptr<Tcp::Peer> pa, pb;
     std::shared_ptr<Tcp::Peer> pc;
     int cc = c.closer ? loop.connect_peer(&pc) : -1; // created first: its descriptor number is the lowest
+    std::shared_ptr<Tcp::Peer> pd;
+    int cd     = c.stale ? loop.connect_peer(&pd) : -1;
+    int fdGone = c.stale ? pd->fd() : -1;
     int ca = loop.connect_peer(&pa), cb = loop.connect_peer(&pb);
     loop.settle();
+    if (c.stale)
+    {
+        // the fourth connection goes away now; the application still holds its Peer and will write to it later
+        ::close(cd);
+        for (auto& f : loop.clientFds)
+            if (f == cd)
+                f = -1;
+        loop.settle();
+    }
     const int fa = pa->fd(), fb = pb->fd();
     lp::World& W = lp::W();
     W.event_order = c.order ? std::vector<int> { fb, fa } : std::vector<int> { fa, fb };
@@ -401,6 +441,8 @@ static void case_c07(uint64_t idx, vr::Ctx& ctx)
     {
         if (s == c.arriveAt)
         {
+            if (c.stale)
+                loop.transport->asyncWrite(fdGone, RawBuffer("gone", 4)).then([](ssize_t) {}, [](std::exception_ptr) {});
             lp::client_send(cb, c.split ? req.substr(0, 9) : req);
             arrived = s;
         }
@@ -484,6 +526,7 @@ int main(int argc, char** argv)
                                     // one of A's pending writes is a file body (first / last of them)
                                     if (!cl && !sp)
                                     {
+                                        gC07.push_back({ p, i, d, j, o, sp, cl, -1, 1 });
                                         gC07.push_back({ p, i, d, j, o, sp, cl, 0 });
                                         if (p > 1)
                                             gC07.push_back({ p, i, d, j, o, sp, cl, p - 1 });
